@@ -306,7 +306,9 @@ func checkC16Concurrent(c *Ctx) {
 			continue
 		}
 		n++
-		if r.RevAbs != 0 && r.KV != nil && r.KV.Rev == r.RevAbs {
+		// (only for expectations the statement quantifies over - correct, stale, zero: a guessed future
+		// revision can come into existence between the refused write and the read of the failure branch)
+		if r.RevAbs != 0 && r.KV != nil && r.KV.Rev == r.RevAbs && r.Op.Rev.M != "future" {
 			c.Out.violate(P, "failure-branch-matches-expectation", "failure-branch-matches-expectation op="+r.Op.K,
 				"%s %s expecting revision %d reported a failed condition, but the key-value in its failure branch has exactly that revision", r.Op.K, r.Op.Key, r.RevAbs)
 		}
